@@ -406,6 +406,25 @@ def lookup_sinks(pm, cc: ColourContext) -> list:
     return out
 
 
+def _other_object(fi, e: ast.AST) -> bool | None:
+    """is expression `e` (an argument that should be the document being encoded) positively another object - the result of a
+    call or a loop variable?  False: it is a parameter of the function; None: cannot be told (attribute, alias ...)"""
+    from ..astmatch import assignments, resolve
+    a = fi.node.args
+    params = {x.arg for x in list(a.posonlyargs) + list(a.args) + list(a.kwonlyargs)}
+    r = resolve(e, fi.node)
+    if isinstance(r, ast.Name):
+        if r.id in params:
+            return False
+        vals = assignments(fi.node).get(r.id, [])
+        if vals and all(isinstance(v, ast.Call) or (isinstance(v, ast.Constant) and v.value == "<loop>") for v in vals):
+            return True
+        return None
+    if isinstance(r, ast.Call):
+        return True
+    return None
+
+
 def r12_1(ctx: Ctx, cg: CallGraph) -> None:
     pm = ctx.pm
     cc = ColourContext(pm, cg)
@@ -454,8 +473,10 @@ def r12_1(ctx: Ctx, cg: CallGraph) -> None:
                     ctx.instance("R12.1", fi.where(c), f"{fi.short}: context established for {arg} by `{unparse(c)[:60]}`")
                     if arg_e is None:
                         ctx.gap("R12.1", f"{fi.short}: the document passed to `{unparse(c)[:60]}` cannot be identified")
-                    elif arg not in params:
+                    elif _other_object(fi, arg_e) is True:
                         ctx.violation("R12.1", fi.short, f"context document {arg}", fi.where(c), f"{fi.short}: the colour context is not set from the document being encoded ({arg})")
+                    elif _other_object(fi, arg_e) is None:
+                        ctx.gap("R12.1", f"{fi.short}: whether `{arg}` passed to `{unparse(c)[:50]}` is the document being encoded cannot be told")
                     for st in (True, False):
                         if (fi.short, st) in precise and id(nd) in cc.flow(fi, st) and cc.flow(fi, st)[id(nd)]:
                             ctx.violation("R12.1", fi.short, "context re-bound " + unparse(c)[:60], fi.where(c),
@@ -476,8 +497,10 @@ def r12_1(ctx: Ctx, cg: CallGraph) -> None:
                     continue
                 arg = unparse(arg_e)
                 ctx.instance("R12.1", fi.where(c), f"{fi.short}: encode_color_table({arg})")
-                if arg not in params:
+                if _other_object(fi, arg_e) is True:
                     ctx.violation("R12.1", fi.short, f"colour table of {arg}", fi.where(c), f"{fi.short}: colour table is generated from {arg}, not from the document being encoded")
+                elif _other_object(fi, arg_e) is None:
+                    ctx.gap("R12.1", f"{fi.short}: whether `{arg}` passed to encode_color_table is the document being encoded cannot be told")
     ctx.floor("R12.1", 4)
 
 
@@ -496,72 +519,228 @@ def _conjuncts(e: ast.AST) -> list[ast.AST]:
     return [e]
 
 
-def _dense_pipelines(fi) -> list[dict]:
-    """sort steps of a function that order a filtered and/or validated colour list: sorted(validate(filter(src)), key=...),
-    recognised through temporaries; the filter is reported as a set of conjuncts over the element `X`"""
-    from ..astmatch import resolve
+def _excluded(conj: ast.AST, var: str):
+    """the constants an element filter conjunct excludes (`x` -> '', `x != 'black'` -> 'black', `x not in ('', 'black')`),
+    or None when the conjunct is not of a recognised form"""
+    def is_var(e):
+        return isinstance(e, ast.Name) and e.id == var
+
+    def consts(e):
+        if isinstance(e, ast.Constant):
+            return {e.value}
+        if isinstance(e, (ast.Tuple, ast.List, ast.Set)) and all(isinstance(x, ast.Constant) for x in e.elts):
+            return {x.value for x in e.elts}
+        return None
+    if is_var(conj):
+        return {""}
+    if isinstance(conj, ast.Call) and dotted(conj.func) == "bool" and len(conj.args) == 1 and is_var(conj.args[0]):
+        return {""}
+    neg = False
+    if isinstance(conj, ast.UnaryOp) and isinstance(conj.op, ast.Not):
+        conj, neg = conj.operand, True
+    if isinstance(conj, ast.Compare) and len(conj.ops) == 1:
+        op, l, r = conj.ops[0], conj.left, conj.comparators[0]
+        if isinstance(op, (ast.NotEq, ast.IsNot) if not neg else (ast.Eq, ast.Is)):
+            other = r if is_var(l) else (l if is_var(r) else None)
+            c = consts(other) if isinstance(other, ast.Constant) else None
+            if c is not None:
+                return {"" if x is None else x for x in c}
+        if isinstance(op, ast.NotIn if not neg else ast.In) and is_var(l):
+            c = consts(r)
+            if c is not None:
+                return {"" if x is None else x for x in c}
+    return None
+
+
+def _key_class(key: ast.AST | None, fn: ast.AST):
+    """None (natural order) | 'master' (ordered by the master colour index) | ('other', text)"""
+    if key is None:
+        return None
+    if isinstance(key, ast.Lambda) and key.args.args:
+        p = key.args.args[0].arg
+        body = key.body
+        used = {n.id for n in ast.walk(body) if isinstance(n, ast.Name)}
+        if p not in used:
+            # the parameter does not occur in the body: if the body uses exactly one name that is bound nowhere in the
+            # enclosing function scope (only as a comprehension variable elsewhere) the renaming pass has detached the
+            # parameter from its uses; treat that name as the parameter.  Anything else is a constant key.
+            a = fn.args
+            scope = {x.arg for x in list(a.posonlyargs) + list(a.args) + list(a.kwonlyargs)} | {"self", "cls"}
+            scope |= {n.id for n in walk_no_nested(fn) if isinstance(n, ast.Name) and isinstance(n.ctx, ast.Store)
+                      and not isinstance(getattr(n, "_parent", None), ast.comprehension)}
+            free = [u for u in used if u not in scope]
+            if len(free) == 1:
+                p = free[0]
+            else:
+                return ("other", unparse(key))
+        txt = _rename(body, p)
+        if re.fullmatch(r"(self|cls)\._name_to_type\[X\]", txt) or re.fullmatch(r"(self|cls)\._name_to_type\.get\(X(, .*)?\)", txt) \
+                or re.fullmatch(r"(self|cls)\.get_color_index\(X\)", txt):
+            return "master"
+        return ("other", txt)
+    txt = unparse(key)
+    if re.fullmatch(r"(self|cls)\._name_to_type\.(__getitem__|get)", txt) or re.fullmatch(r"(self|cls)\.get_color_index", txt):
+        return "master"
+    return ("other", txt)
+
+
+def _describe(pm, cg: CallGraph, fi, e: ast.AST, depth: int = 3) -> dict:
+    """how the list denoted by expression `e` of function `fi` is derived from its source: element filters (as the set of
+    excluded constants, None = a filter that is not understood), validation, sort step.  Sees through temporaries, list()/tuple(),
+    and calls of repo helpers whose single non-trivial return describes a list derived from one of their parameters."""
+    from ..astmatch import assignments, mutated, resolve
+    d = {"excl": set(), "validate": False, "sorted": False, "key": None, "src": None}
+
+    def merge(inner):
+        if inner["excl"] is None or d["excl"] is None:
+            d["excl"] = None
+        else:
+            d["excl"] |= inner["excl"]
+        d["validate"] = d["validate"] or inner["validate"]
+        if inner["sorted"] and not d["sorted"]:
+            d["sorted"], d["key"] = True, inner["key"]
+        d["src"] = inner["src"]
+
+    e = resolve(e, fi.node) if not isinstance(e, ast.Call) else e
+    if isinstance(e, ast.Name):
+        asg = assignments(fi.node).get(e.id, [])
+        real = [v for v in asg if not (isinstance(v, (ast.List, ast.Tuple)) and not v.elts)]
+        a = fi.node.args
+        params = {x.arg for x in list(a.posonlyargs) + list(a.args) + list(a.kwonlyargs)}
+        if e.id not in params and len(real) == 1 and not (isinstance(real[0], ast.Constant)) and depth > 0:
+            # several assignments of which all but one are empty literals (`x = []` on the early-exit arm)
+            merge(_describe(pm, cg, fi, real[0], depth - 1))
+            return d
+        d["src"] = e.id
+        return d
+    if isinstance(e, (ast.ListComp, ast.GeneratorExp)) and len(e.generators) == 1 and isinstance(e.generators[0].target, ast.Name) \
+            and isinstance(e.elt, ast.Name) and e.elt.id == e.generators[0].target.id:
+        g = e.generators[0]
+        merge(_describe(pm, cg, fi, g.iter, depth))
+        for i in g.ifs:
+            for c in _conjuncts(i):
+                x = _excluded(c, g.target.id)
+                if x is None or d["excl"] is None:
+                    d["excl"] = None
+                else:
+                    d["excl"] |= x
+        return d
+    if isinstance(e, ast.Call):
+        nm = _last(e)
+        if dotted(e.func) == "sorted" and e.args:
+            merge(_describe(pm, cg, fi, e.args[0], depth))
+            rev = next((k.value for k in e.keywords if k.arg == "reverse"), None)
+            kc = _key_class(next((k.value for k in e.keywords if k.arg == "key"), None), fi.node)
+            if rev is not None and not (isinstance(rev, ast.Constant) and rev.value is False):
+                kc = ("other", f"{kc} reversed")
+            d["sorted"], d["key"] = True, kc
+            return d
+        if dotted(e.func) in ("list", "tuple") and len(e.args) == 1:
+            merge(_describe(pm, cg, fi, e.args[0], depth))
+            return d
+        if nm == "validate_color_list" and e.args:
+            merge(_describe(pm, cg, fi, e.args[0], depth))
+            d["validate"] = True
+            return d
+        if depth > 0:
+            before = id(e) in cg.imprecise
+            cands = cg.resolve_call(fi, e)
+            if len(cands) == 1 and not before and id(e) not in cg.imprecise and cands[0].short != fi.short:
+                g = cands[0]
+                rets = [r.value for r in walk_no_nested(g.node) if isinstance(r, ast.Return) and r.value is not None
+                        and not (isinstance(r.value, (ast.List, ast.Tuple)) and not r.value.elts)]
+                if len(rets) == 1:
+                    inner = _describe(pm, cg, g, rets[0], depth - 1)
+                    ga = g.node.args
+                    gparams = [x.arg for x in list(ga.posonlyargs) + list(ga.args) + list(ga.kwonlyargs)]
+                    if inner["src"] in gparams and (inner["sorted"] or inner["validate"] or inner["excl"] != set()):
+                        arg = bound_arg(e, g, inner["src"])
+                        if arg is not None:
+                            merge(_describe(pm, cg, fi, arg, depth - 1))
+                            merge({**inner, "src": d["src"]})
+                            return d
+    d["src"] = unparse(e)[:60]
+    return d
+
+
+def _dense_pipelines(pm, cg: CallGraph, fi) -> list[dict]:
+    """the expressions of a function that denote a sorted, filtered and/or validated colour list (through temporaries and
+    repo helpers), each with the names it is bound to"""
     out = []
+    covered: set[int] = set()
     for n in walk_no_nested(fi.node):
-        if not isinstance(n, ast.Call):
+        if not isinstance(n, ast.Call) or id(n) in covered:
             continue
-        if dotted(n.func) == "sorted" and n.args:
-            arg = n.args[0]
-        elif isinstance(n.func, ast.Attribute) and n.func.attr == "sort" and not n.args:
-            arg = n.func.value
+        if isinstance(n.func, ast.Attribute) and n.func.attr == "sort" and not n.args and isinstance(n.func.value, ast.Name):
+            # in-place sort of a local list
+            d = _describe(pm, cg, fi, n.func.value)
+            d["sorted"], d["key"] = True, _key_class(next((k.value for k in n.keywords if k.arg == "key"), None), fi.node)
+            names = [n.func.value.id]
         else:
+            d = _describe(pm, cg, fi, n)
+            par = getattr(n, "_parent", None)
+            names = [t.id for t in par.targets if isinstance(t, ast.Name)] if isinstance(par, ast.Assign) else []
+        if not d["sorted"] or (d["excl"] == set() and not d["validate"]):
             continue
-        chain = resolve(arg, fi.node)
-        filt, validated = None, False
-        for x in ast.walk(chain):
-            if isinstance(x, (ast.ListComp, ast.GeneratorExp)) and len(x.generators) == 1 and x.generators[0].ifs \
-                    and isinstance(x.generators[0].target, ast.Name) and isinstance(x.elt, ast.Name) and x.elt.id == x.generators[0].target.id:
-                g = x.generators[0]
-                filt = frozenset(_rename(c, g.target.id) for i in g.ifs for c in _conjuncts(i))
-            if isinstance(x, ast.Call) and _last(x) == "validate_color_list":
-                validated = True
-        if filt is None and not validated:
-            continue
-        key = next((k.value for k in n.keywords if k.arg == "key"), None)
-        if key is None:
-            keytxt = None
-        elif isinstance(key, ast.Lambda) and key.args.args:
-            keytxt = _rename(key.body, key.args.args[0].arg)
-        else:
-            keytxt = unparse(key)
-        rev = next((unparse(k.value) for k in n.keywords if k.arg == "reverse"), None)
-        par = getattr(n, "_parent", None)
-        names = [t.id for t in par.targets if isinstance(t, ast.Name)] if isinstance(par, ast.Assign) else \
-            ([arg.id] if isinstance(arg, ast.Name) and dotted(n.func) != "sorted" else [])
-        out.append({"node": n, "filter": filt, "validate": validated, "key": keytxt if rev in (None, "False") else f"{keytxt} reversed", "names": names})
+        for x in ast.walk(n):
+            covered.add(id(x))
+        out.append({"node": n, "excl": d["excl"], "validate": d["validate"], "key": d["key"], "names": names})
     return out
 
 
 def _show_pipe(p: dict) -> str:
-    f = " and ".join(sorted(p["filter"])) if p["filter"] is not None else None
-    return f"filter `{f}` validate={p['validate']} sort key `{p['key']}`"
+    f = "not understood" if p["excl"] is None else "drops " + str(sorted(map(repr, p["excl"])))
+    return f"filter {f} validate={p['validate']} sort key {p['key']}"
 
 
-def r12_2(ctx: Ctx) -> None:
+def r12_2(ctx: Ctx, cg: CallGraph) -> None:
     from ..astmatch import assignments, guard_atoms, guards, mutated, resolve
     from ..linform import linform
     pm = ctx.pm
     gen = pm.func("ColorService.generate_rtf_color_table")
     idx = pm.func("ColorService.get_rtf_color_index")
-    pgs, pis = _dense_pipelines(gen), _dense_pipelines(idx)
+    pgs, pis = _dense_pipelines(pm, cg, gen), _dense_pipelines(pm, cg, idx)
+    for _ in range(2):
+        if pis:
+            break
+        # the position may be computed by a helper whose result is returned as it is: analyse the helper in its place
+        nxt = None
+        for r in walk_no_nested(idx.node):
+            if isinstance(r, ast.Return) and isinstance(r.value, ast.Call):
+                before = id(r.value) in cg.imprecise
+                cands = cg.resolve_call(idx, r.value)
+                if len(cands) == 1 and not before and id(r.value) not in cg.imprecise and _dense_pipelines(pm, cg, cands[0]):
+                    h = cands[0]
+                    ha = h.node.args
+                    passed = [bound_arg(r.value, h, x.arg) for x in list(ha.posonlyargs) + list(ha.args) if x.arg not in ("self", "cls")]
+                    if all(a is not None and isinstance(resolve(a, idx.node), (ast.Name, ast.IfExp, ast.Attribute, ast.Call)) and
+                           not any(isinstance(x, (ast.ListComp, ast.GeneratorExp)) or (isinstance(x, ast.Call) and dotted(x.func) in ("sorted", "filter"))
+                                   for x in ast.walk(resolve(a, idx.node))) for a in passed):
+                        nxt = h
+        if nxt is None:
+            break
+        ctx.instance("R12.2", idx.where(), f"{idx.short} returns the position computed by {nxt.short}", nontrivial=False)
+        idx = nxt
+        pis = _dense_pipelines(pm, cg, idx)
     if len(pgs) != 1 or len(pis) != 1:
         ctx.gap("R12.2", f"the filter/validate/sort pipeline could not be re-identified ({len(pgs)} in {gen.short}, {len(pis)} in {idx.short})")
         return
     pg, pi = pgs[0], pis[0]
     ctx.instance("R12.2", gen.where(), "table pipeline: " + _show_pipe(pg))
     ctx.instance("R12.2", idx.where(), "index pipeline: " + _show_pipe(pi))
-    if (pg["filter"], pg["validate"], pg["key"]) != (pi["filter"], pi["validate"], pi["key"]):
+    understood = True
+    for fi, p in ((gen, pg), (idx, pi)):
+        if p["excl"] is None:
+            understood = False
+            ctx.gap("R12.2", f"{fi.short}: an element filter of the colour pipeline is not of a recognised form")
+        if p["key"] is None:
+            ctx.violation("R12.2", fi.short, "sort key None", fi.where(p["node"]), "dense colour list is not ordered by the master index")
+        elif p["key"] != "master":
+            understood = False
+            ctx.gap("R12.2", f"{fi.short}: sort key `{p['key'][1]}` is not recognised as the master index")
+    if understood and (pg["excl"], pg["validate"], pg["key"]) != (pi["excl"], pi["validate"], pi["key"]):
         ctx.violation("R12.2", "ColorService", f"pipelines differ: {_show_pipe(pg)} vs {_show_pipe(pi)}", idx.where(),
                       f"colour table and colour index are computed by different pipelines: table {_show_pipe(pg)}, index {_show_pipe(pi)}")
-    for fi, p in ((gen, pg), (idx, pi)):
-        if p["key"] is None or "reversed" in str(p["key"]):
-            ctx.violation("R12.2", fi.short, f"sort key {p['key']}", fi.where(p["node"]), "dense colour list is not ordered by the master index")
-        elif "_name_to_type" not in p["key"] and "get_color_index" not in p["key"]:
-            ctx.gap("R12.2", f"{fi.short}: sort key `{p['key']}` is not recognised as the master index")
     # ---- table: one entry per sorted colour, unconditionally, after a single leading default entry
     S = set(pg["names"])
     asg = assignments(gen.node)
@@ -587,7 +766,13 @@ def r12_2(ctx: Ctx) -> None:
                 return ("filtered", unparse(e)[:60]) if e.generators[0].ifs else ("mapped", e.elt)
             return c
         if any(isinstance(x, ast.Name) and x.id in derived for x in ast.walk(e)):
-            return ("derived", unparse(e)[:60])
+            # a derivative of the sorted colours: lossy when it de-duplicates, filters or slices (positive evidence);
+            # any other operation is not modelled
+            lossy = (isinstance(e, ast.Call) and (dotted(e.func) in ("set", "frozenset", "filter", "dict.fromkeys", "OrderedDict.fromkeys", "itertools.islice", "islice")
+                                                  or (isinstance(e.func, ast.Attribute) and e.func.attr in ("fromkeys", "unique")))) \
+                or (isinstance(e, ast.Subscript) and isinstance(e.slice, ast.Slice)) \
+                or isinstance(e, (ast.SetComp, ast.DictComp))
+            return ("derived" if lossy else "unknown", unparse(e)[:60])
         return None
 
     consumers = 0
@@ -602,14 +787,22 @@ def r12_2(ctx: Ctx) -> None:
             continue
         consumers += 1
         accs.update(x.func.value.id for x in apps if isinstance(x.func.value, ast.Name))
+        if c[0] == "unknown":
+            ctx.gap("R12.2", f"{gen.short}: the table loop iterates `{c[1]}`, a derivative of the sorted colours that is not modelled")
+            continue
         if c[0] in ("derived", "filtered"):
             ctx.instance("R12.2", gen.where(lp), f"dense table loop iterates `{c[1]}`, not the sorted colours themselves")
             ctx.violation("R12.2", gen.short, "dense loop", gen.where(lp),
                           f"the dense colour table is built from `{c[1]}`, a filtered / de-duplicated derivative of the sorted colours, while the index counts one position per sorted colour")
             continue
-        cond = [x for st in lp.body for x in ast.walk(st) if isinstance(x, (ast.If, ast.Continue, ast.Break, ast.IfExp))]
+        # an entry is conditional when the append itself is guarded inside the loop, or the iteration can be cut short
+        cond = [x for st in lp.body for x in ast.walk(st) if isinstance(x, (ast.Continue, ast.Break))]
+        cond += [x for x in apps + aug if guards(x, lp)]
         ctx.instance("R12.2", gen.where(lp), f"dense table loop: {len(apps) + len(aug)} append(s), conditional constructs: {len(cond)}")
-        if cond or len(apps) + len(aug) != 1:
+        if not cond and len(apps) + len(aug) != 1:
+            ctx.gap("R12.2", f"{gen.short}: the table loop appends {len(apps) + len(aug)} pieces per colour; one entry per colour could not be established")
+            continue
+        if cond:
             ctx.violation("R12.2", gen.short, "conditional table entry", gen.where(lp),
                           "the dense colour table does not emit exactly one entry per sorted colour (entries are skipped or added "
                           "conditionally) while the index counts one position per colour")
@@ -629,7 +822,9 @@ def r12_2(ctx: Ctx) -> None:
             if x.func.attr == "extend" and isinstance(x.func.value, ast.Name):
                 accs.add(x.func.value.id)
             ctx.instance("R12.2", gen.where(x), f"dense table entries by comprehension: {c[0]}")
-            if c[0] in ("derived", "filtered"):
+            if c[0] == "unknown":
+                ctx.gap("R12.2", f"{gen.short}: table entries are built from `{c[1]}`, a derivative of the sorted colours that is not modelled")
+            elif c[0] in ("derived", "filtered"):
                 ctx.violation("R12.2", gen.short, "conditional table entry" if c[0] == "filtered" else "dense loop", gen.where(x),
                               f"the dense colour table is built from `{c[1]}`: not one entry per sorted colour, while the index counts one position per colour")
             elif "_name_to_rtf" not in unparse(c[1]) and "rtf_code" not in unparse(c[1]):
@@ -666,14 +861,21 @@ def r12_2(ctx: Ctx) -> None:
         lf = linform(v)
         term = unparse(c)
         if lf != {term: 1, "": 1}:
-            ctx.violation("R12.2", idx.short, f"returns {[unparse(r.value)]}", idx.where(r), f"dense colour index `{unparse(r.value)}` is not `position in the sorted list + 1`")
+            if set(lf) <= {term, ""}:
+                ctx.violation("R12.2", idx.short, f"returns {[unparse(r.value)]}", idx.where(r), f"dense colour index `{unparse(r.value)}` is not `position in the sorted list + 1`")
+            else:
+                ctx.gap("R12.2", f"{idx.short}: `{unparse(r.value)[:60]}` is not a linear function of the position alone")
         base = c.func.value
         # resolve() has already replaced a single-assignment name by its defining expression
         if not ((isinstance(base, ast.Name) and base.id in pi["names"]) or ast.dump(base) == ast.dump(resolve(pi["node"], idx.node))):
-            if any(isinstance(x, ast.Call) and dotted(x.func) == "sorted" for x in ast.walk(base)) or (isinstance(base, ast.Name) and base.id in mutated(idx.node)):
-                ctx.gap("R12.2", f"{idx.short}: the list searched by `{unparse(r.value)[:60]}` could not be matched with the sorted pipeline")
-            else:
+            bd = _describe(pm, cg, idx, base)
+            plain = isinstance(bd["src"], str) and bd["src"].isidentifier()
+            if bd["sorted"] and (bd["excl"], bd["validate"], bd["key"]) == (pi["excl"], pi["validate"], pi["key"]):
+                pass
+            elif not bd["sorted"] and plain and not (isinstance(base, ast.Name) and base.id in mutated(idx.node)):
                 ctx.violation("R12.2", idx.short, f"position in {unparse(base)[:40]}", idx.where(r), f"the position is taken in `{unparse(base)[:60]}`, not in the list sorted by the master index")
+            else:
+                ctx.gap("R12.2", f"{idx.short}: the list searched by `{unparse(r.value)[:60]}` could not be matched with the sorted pipeline")
     # ---- black / empty -> 0: in the emitters' lookup or in the service
     sink = pm.func(SINK)
     ok0 = []
@@ -696,9 +898,11 @@ def r12_2(ctx: Ctx) -> None:
                             txt = unparse(resolve(nxt.value, fi.node))
                             ok = "_get_color_index" in txt or LOOKUP in txt
                             ctx.instance("R12.2", fi.where(node), f"{fi.short}: colour control word {v.value[-8:]} parameter <- {txt}")
-                            if not ok:
+                            if not ok and any(isinstance(x, ast.Call) for x in ast.walk(resolve(nxt.value, fi.node))):
+                                ctx.gap("R12.2", f"{fi.short}: the parameter of {v.value[-8:]} comes from `{txt[:60]}`, a call that is not recognised as the colour lookup")
+                            elif not ok:
                                 ctx.violation("R12.2", fi.short, f"{v.value[-8:]} <- {txt}", fi.where(node),
-                                              f"{fi.short}: colour reference {v.value[-8:]} is not produced by {SINK}")
+                                              f"{fi.short}: colour reference {v.value[-8:]} takes a raw value, it is not produced by {SINK}")
     ctx.floor("R12.2", 8)
 
 
@@ -1000,6 +1204,16 @@ def r12_3(ctx: Ctx, cg: CallGraph) -> None:
     got = pf.run(col, {params[0]: {("p", ())}})
     pairs = {it[1] for it in got if it[0] == "p" and len(it[1]) == 2}
     ctx.extra["collected_pairs"] = sorted(".".join(p) for p in pairs)
+    # a component (or the document) that reaches the result as a whole went through something the interpretation does not
+    # model (an external callable, attrgetter ...): what is read from it is unknown, not "nothing"
+    opaque = {it[1][0] if it[1] else "*" for it in got if it[0] == "p" and len(it[1]) < 2}
+    ctx.extra["opaque_components"] = sorted(opaque)
+
+    def report(f, offending, msg):
+        if "*" in opaque or (f is not None and f in opaque) or (f is None and opaque):
+            ctx.gap("R12.3", f"{col.short}: {offending}: document{'.' + f if f else ''} flows into the result through a construct that is not modelled")
+        else:
+            ctx.violation("R12.3", col.short, offending, col.where(), msg)
     for msg in dict.fromkeys(pf.unknown):
         ctx.gap("R12.3", msg)
     if not pairs:
@@ -1009,12 +1223,12 @@ def r12_3(ctx: Ctx, cg: CallGraph) -> None:
         attrs = sorted(p[1] for p in pairs if p[0] == f)
         ctx.instance("R12.3", col.where(), f"collector reads document.{f}: {bool(attrs)} {attrs}")
         if not attrs:
-            ctx.violation("R12.3", col.short, f"component {f}", col.where(), f"colours of document.{f} are not collected: references resolve to index 0 or a missing entry")
+            report(f, f"component {f}", f"colours of document.{f} are not collected: references resolve to index 0 or a missing entry")
     for at in sorted(emitted):
         has = any(p[1] == at for p in pairs)
         ctx.instance("R12.3", col.where(), f"emitted colour attribute {at} collected: {has}")
         if not has:
-            ctx.violation("R12.3", col.short, f"attribute {at}", col.where(), f"emitters resolve {at} to a colour index but the collector never reads it")
+            report(None, f"attribute {at}", f"emitters resolve {at} to a colour index but the collector never reads it")
             continue
         # every component that carries the attribute contributes it
         for f in sorted(comp_fields):
@@ -1022,7 +1236,7 @@ def r12_3(ctx: Ctx, cg: CallGraph) -> None:
                 continue
             carries = any(at in pm.all_fields(c) for c in comp_fields[f])
             if carries and (f, at) not in pairs:
-                ctx.violation("R12.3", col.short, f"attribute {at} of {f}", col.where(), f"document.{f}.{at} is turned into a colour index by the emitters but is not collected into the colour table")
+                report(f, f"attribute {at} of {f}", f"document.{f}.{at} is turned into a colour index by the emitters but is not collected into the colour table")
     ctx.floor("R12.3", 9)
 
 
@@ -1172,7 +1386,7 @@ def check(ctx: Ctx) -> None:
     ctx.assume("RTF readers resolve \\cfN/\\cbN/\\chcbpatN against the document's \\colortbl, index 0 = default")
     ctx.undecided("that each concrete element carries the colour the user asked for (follows from R12.1-3 plus C09's binding rules)")
     r12_1(ctx, cg)
-    r12_2(ctx)
+    r12_2(ctx, cg)
     r12_3(ctx, cg)
     r12_4(ctx)
     r12_5(ctx)
